@@ -44,15 +44,19 @@ GuardOf(x) == [k |-> x.gk, tag |-> x.gtag]
 GuardOrder == << [k |-> "ifndef", tag |-> "F"], [k |-> "ifdef", tag |-> "F"],
                  [k |-> "ifndef", tag |-> "G"], [k |-> "ifdef", tag |-> "G"] >>
 \* sections in the order the writer usually lists them (by number of atoms, then by name)
-SecSeq == << "position_restraints", "bonds", "constraints", "exclusions", "pairs", "angles",
-             "virtual_sites2", "virtual_sitesn", "dihedrals", "impropers" >>
+SecSeq == << "position_restraints", "settles", "virtual_sites1", "bonds", "constraints", "exclusions", "pairs", "pairs_nb",
+             "distance_restraints", "orientation_restraints", "angle_restraints_z", "angles", "virtual_sites2", "virtual_sitesn",
+             "dihedrals", "impropers", "virtual_sites3", "dihedral_restraints", "angle_restraints", "virtual_sites4", "cmap" >>
 \* the .itp format has no [ impropers ] section: improper dihedrals are listed under [ dihedrals ]
 FileSec(s) == IF s = "impropers" THEN "dihedrals" ELSE s
 
 (* ------------------------------------------------------------------ *)
 (* WriterCanon: which atom listings denote the same interaction        *)
 (* ------------------------------------------------------------------ *)
-SymSecs == {"bonds", "pairs", "angles", "dihedrals"}     \* bond a-b = b-a, angle and dihedral reversed
+\* bond a-b = b-a, pair likewise; angle, dihedral (proper and improper), dihedral restraint and angle restraint (two vectors) reversed.
+\* Not in the list although the writer turns it round too: angle_restraints_z (the angle of the vector i->j with the z axis: j->i is the
+\* supplementary angle) - see the finding instance.
+SymSecs == {"bonds", "pairs", "angles", "dihedrals", "dihedral_restraints", "angle_restraints"}
 SameListing(sec, a, b) == a = b \/ (sec \in SymSecs /\ a = Reverse(b))
 Equiv(x, y) == /\ x.sec = y.sec /\ x.par = y.par /\ x.gk = y.gk /\ x.gtag = y.gtag
                /\ SameListing(x.sec, x.atoms, y.atoms)
@@ -62,6 +66,12 @@ BagEqMod(a, b) == /\ Len(a) = Len(b)
                                          = Cardinality({j \in DOMAIN b : Equiv(b[j], a[i])})
 \* the listings a reader may return for one interaction (exported for the replay)
 Alts(sec, a) == IF sec \in SymSecs THEN {a, Reverse(a)} ELSE {a}
+(* The same equality computed in n log n for the big molecules of the trace validation: one representative per class of listings  *)
+(* (CHOOSE on the set of admissible listings: equal sets give the same choice), then equality of the count functions.              *)
+(* FastAgrees (checked on the exhaustive instance, deviations included) states that it is the same relation.                      *)
+Rep(x) == [x EXCEPT !.atoms = CHOOSE t \in Alts(x.sec, x.atoms) : TRUE]
+CountsOf(c) == FoldLeft(LAMBDA f, x : [f EXCEPT ![x] = @ + 1], [x \in ToSet(c) |-> 0], c)
+BagEqFast(a, b) == Len(a) = Len(b) /\ CountsOf([i \in DOMAIN a |-> Rep(a[i])]) = CountsOf([i \in DOMAIN b |-> Rep(b[i])])
 
 (* ------------------------------------------------------------------ *)
 (* token space: what a file can carry                                  *)
@@ -75,6 +85,11 @@ Project(m) == [name |-> m.name, nrexcl |-> S(m.nrexcl),
                atoms |-> [i \in DOMAIN m.atoms |-> TokAtom(m.atoms[i])],
                inter |-> [i \in DOMAIN m.inter |-> TokInter(m.inter[i])]]
 Same(p, q) == /\ p.name = q.name /\ p.nrexcl = q.nrexcl /\ p.atoms = q.atoms /\ BagEqMod(p.inter, q.inter)
+\* the same, with further sections taken as symmetric (used only to classify a known finding exactly)
+RepX(x, X) == [x EXCEPT !.atoms = CHOOSE t \in (IF x.sec \in X THEN {x.atoms, Reverse(x.atoms)} ELSE Alts(x.sec, x.atoms)) : TRUE]
+SameFastX(p, q, X) == /\ p.name = q.name /\ p.nrexcl = q.nrexcl /\ p.atoms = q.atoms /\ Len(p.inter) = Len(q.inter)
+                      /\ CountsOf([i \in DOMAIN p.inter |-> RepX(p.inter[i], X)]) = CountsOf([i \in DOMAIN q.inter |-> RepX(q.inter[i], X)])
+SameFast(p, q) == /\ p.name = q.name /\ p.nrexcl = q.nrexcl /\ p.atoms = q.atoms /\ BagEqFast(p.inter, q.inter)
 
 (* ------------------------------------------------------------------ *)
 (* P-layer: Write                                                      *)
@@ -87,8 +102,8 @@ AtomRow(m, i) == LET a == m.atoms[i] IN
 \* the writer's choice of listing (it never changes the interaction: WriterOrient(x) is in Alts)
 WriterOrient(sec, a) ==
     CASE sec \in {"bonds", "pairs"} -> IF a[1] <= a[2] THEN a ELSE Reverse(a)
-      [] sec = "angles"             -> IF a[1] < a[3] THEN a ELSE Reverse(a)
-      [] sec = "dihedrals"          -> IF a[2] < a[3] THEN a ELSE Reverse(a)
+      [] sec \in {"angles", "angle_restraints", "angle_restraints_z"} -> IF a[1] < a[Len(a)] THEN a ELSE Reverse(a)
+      [] sec \in {"dihedrals", "dihedral_restraints"} -> IF a[2] < a[3] THEN a ELSE Reverse(a)
       [] OTHER                      -> a
 StrSeq(a) == [i \in DOMAIN a |-> S(a[i])]
 InterRow(x) == LET a == StrSeq(WriterOrient(x.sec, x.atoms)) IN
@@ -108,12 +123,17 @@ Write(m) == HeaderLines(m) \o AtomLines(m) \o FlattenSeq([j \in DOMAIN SecsPrese
 (* ------------------------------------------------------------------ *)
 (* P-layer: Read (a fold over the lines)                               *)
 (* ------------------------------------------------------------------ *)
-NAtomsOf(s) == CASE s \in {"bonds", "constraints", "pairs"} -> 2
+\* the reader's table: how many leading tokens of a line are atoms (exclusions: all; virtual_sitesn: the first and those after
+\* the function type)
+NAtomsOf(s) == CASE s \in {"position_restraints", "virtual_sites1", "settles"} -> 1
+                 [] s \in {"bonds", "constraints", "pairs", "pairs_nb", "distance_restraints", "orientation_restraints", "angle_restraints_z"} -> 2
                  [] s \in {"angles", "virtual_sites2"} -> 3
-                 [] s = "dihedrals" -> 4
-                 [] s = "position_restraints" -> 1
+                 [] s \in {"dihedrals", "virtual_sites3", "dihedral_restraints", "angle_restraints"} -> 4
+                 [] s \in {"virtual_sites4", "cmap"} -> 5
                  [] OTHER -> 0
-KnownSecs == {"bonds", "constraints", "pairs", "angles", "virtual_sites2", "dihedrals", "position_restraints", "exclusions", "virtual_sitesn"}
+KnownSecs == {"position_restraints", "virtual_sites1", "settles", "bonds", "constraints", "pairs", "pairs_nb", "distance_restraints",
+              "orientation_restraints", "angle_restraints_z", "angles", "virtual_sites2", "dihedrals", "virtual_sites3", "dihedral_restraints",
+              "angle_restraints", "virtual_sites4", "cmap", "exclusions", "virtual_sitesn"}
 RowOk(s, t) == CASE s = "exclusions" -> Len(t) >= 1
                  [] s = "virtual_sitesn" -> Len(t) >= 2
                  [] OTHER -> s \in KnownSecs /\ Len(t) >= NAtomsOf(s)
@@ -258,6 +278,7 @@ ReaderIsFold == pc = "done" => Result = Read(out)
 \* the round trip through the actions
 RoundTripI == pc = "done" => Result.ok /\ Same(Result, Project(mol))
 ResGraphI == pc = "done" => (Missing(mol) = {} => ReadResGraph(Result) = Requested(mol))
+FastAgrees == pc = "done" => (SameFast(Result, Project(mol)) = Same(Result, Project(mol)))
 \* conditionals are never nested and a guard is open exactly while its group is written
 Depth(ls) == Cardinality({i \in DOMAIN ls : ls[i].k \in {"ifdef", "ifndef"}}) - Cardinality({i \in DOMAIN ls : ls[i].k = "endif"})
 GuardDiscipline == pc \in {"start", "atoms", "section", "group", "lines", "written", "done"} =>
